@@ -160,7 +160,10 @@ class C16(Scenario):
                 keyof[id(item)] = k
                 rec = {"p": pi, "k": k, "inv": sim.next_seq(), "id": id(item), "item": item}
                 hist["puts"].append(rec)
-                q.put(item)
+                try:
+                    q.put(item)
+                except Exception as e:  # noqa: BLE001 - a finding about the library, not a harness error
+                    hist.setdefault("raised", []).append(("put", type(e).__name__, str(e)[:100]))
                 rec["ret"] = sim.next_seq()
                 sim.rec("put", pi, k)
 
@@ -201,6 +204,9 @@ class C16(Scenario):
                         item = q.get(block=True, timeout=case["get_timeout"])
                     except qmod.Empty:
                         continue
+                    except Exception as e:  # noqa: BLE001
+                        hist.setdefault("raised", []).append(("get", type(e).__name__, str(e)[:100]))
+                        return
                     if item is STOP:
                         return
                     hist["out"].append(id(item))
@@ -231,6 +237,8 @@ class C16(Scenario):
             for u in sim.uncaught:
                 if u["kind"] != "actor":
                     v.append(Violation("uncaught", f"C16:uncaught:{u['exc']}", str(u)))
+            for name, exc, msg in hist.get("raised", []):
+                v.append(Violation("raised", f"C16:{name}-raised:{exc}", f"{name}() raised {exc}: {msg}"))
             v.extend(self.oracle(case, hist))
             return v, {"extra": {"enumerated_sequential_programs": 1 if case.get("enumerated") else 0}, "sample": {"timeline": [(e[0], e[3], e[1], keyname(e[2])) for e in hist["tl"]][:20], "seqlog": hist.get("seqlog")}}
 
